@@ -18,9 +18,15 @@ from .oracle import Oracle, getter
 from .catalog import NONUNIFORM
 
 
-def sample_check(spec, exprs, grids, inst):
+def sample_check_more(spec, exprs, grids, inst):
+    """further expressions / grids on a specification that sample_check has already built and transcribed"""
+    return sample_check(spec, exprs, grids, inst, built_already=True)
+
+
+def sample_check(spec, exprs, grids, inst, built_already=False):
     c = ctx()
-    spec.build()
+    if not built_already:
+        spec.build()
     ocp = spec.ocp
     # expressions are declared before transcription (like a user would)
     built = []
@@ -223,7 +229,8 @@ def tasks(tier):
         def fn(N=N, M=M, label=label):
             spec = Spec(method="DC", N=N, M=M, degree=2, T=("unknown",), t0=("unknown",), algebraics=[1], ode=E("f", None, ("x", "u", "z", "t")),
                         alg=E("g", None, ("x", "z", "u")), label=label)
-            sample_check(spec, [(E("sz", 2, ("x", "z", "u", "t")), None)], ["control", "control-", "integrator", "integrator-", "integrator_roots"], label)
+            sample_check(spec, [(E("sz", 2, ("x", "z", "u", "t")), None), (E("sz0", 1, ("z",)), None), (E("szu", 2, ("z", "u")), None), (E("su0", 1, ("u",)), None)],
+                         ["control", "control-", "integrator", "integrator-", "integrator_roots"], label)
         out.append(Task(label, fn, kind="bounded", replay=dict(harness="task_probe", module="contracts.c07", task=label, tier=tier), bound=dict(method="DC", N=N, M=M, algebraics=1)))
     # generated specifications (contracts/randspec.py): an expression of every declared symbol sampled on every grid
     from . import randspec
@@ -239,7 +246,16 @@ def tasks(tier):
             have = [a for a in ("x", "u", "z", "t", "p", "pc", "pcp", "v", "vc", "vcp", "T", "t0") if a not in ("u", "z") or kw["controls" if a == "u" else "algebraics"]] + (["w"] if kw.get("hoc") else [])
             between = [a for a in have if a != "z" or (kw.get("scheme") == "radau" and kw.get("degree", 2) <= 2)]
             grids = ["control", "control-", "integrator", "integrator-"]
-            sample_check(spec, [(E("sa", 2, tuple(between)), None)], grids, label)
+            # a second expression WITHOUT states and time (piecewise-constant and algebraic ingredients only)
+            flat = [a for a in between if a not in ("x", "t", "T", "t0", "w")]
+            exprs = [(E("sa", 2, tuple(between)), None)] + ([(E("sb", 1, tuple(flat)), None)] if flat else [])
+            if kw["method"] == "DC":
+                roots = [a for a in have if a not in ("T", "t0")]
+                flat_r = [a for a in roots if a not in ("x", "t", "w")]
+                sample_check(spec, exprs, grids, label)
+                sample_check_more(spec, [(E("sr", 2, tuple(roots)), None)] + ([(E("srz", 1, tuple(flat_r)), None)] if flat_r else []), ["integrator_roots"], label)
+                return
+            sample_check(spec, exprs, grids, label)
         out.append(Task(label, fn, kind="bounded", replay=dict(harness="task_probe", module="contracts.c07", task=label, tier=tier), bound=dict(generated=i)))
     from . import c08
     out += c08.tasks(tier, prop="C07")
